@@ -101,3 +101,76 @@ Lemma tie_block_decode_entry : TIE_block_decode_entry =
    (0, "assert(!((limit-p)<(*non_shared+*value_length)))");
    (0, "return(p)")].
 Proof. reflexivity. Qed.
+
+(* mtbl/block.c: num_restarts *)
+Lemma tie_blk_num_restarts : TIE_blk_num_restarts =
+  [(0, "assert(b->size>=2*sizeof(uint32_t))");
+   (0, "return(mtbl_fixed_decode32(b->data+b->size-sizeof(uint32_t)))")].
+Proof. reflexivity. Qed.
+
+(* mtbl/block.c: block_iter_init *)
+Lemma tie_blk_block_iter_init : TIE_blk_block_iter_init =
+  [(0, "assert(b->size>=2*sizeof(uint32_t))");
+   (0, "structblock_iter*bi=my_calloc(1,sizeof(*bi))");
+   (0, "bi->block=b");
+   (0, "bi->data=b->data");
+   (0, "bi->restarts=b->restart_offset");
+   (0, "bi->num_restarts=num_restarts(b)");
+   (0, "bi->current=bi->restarts");
+   (0, "bi->restart_index=bi->num_restarts");
+   (0, "assert(bi->num_restarts>0)");
+   (0, "bi->key=ubuf_init(64)");
+   (0, "return(bi)")].
+Proof. reflexivity. Qed.
+
+(* mtbl/block.c: next_entry_offset *)
+Lemma tie_blk_next_entry_offset : TIE_blk_next_entry_offset =
+  [(0, "return(bi->next-bi->data)")].
+Proof. reflexivity. Qed.
+
+(* mtbl/block.c: seek_to_restart_point *)
+Lemma tie_blk_seek_to_restart_point : TIE_blk_seek_to_restart_point =
+  [(0, "ubuf_reset(bi->key)");
+   (0, "bi->restart_index=idx");
+   (0, "uint64_toffset=get_restart_point(bi,idx)");
+   (0, "bi->next=bi->data+offset")].
+Proof. reflexivity. Qed.
+
+(* mtbl/block.c: block_iter_valid *)
+Lemma tie_blk_block_iter_valid : TIE_blk_block_iter_valid =
+  [(0, "return(bi->current<bi->restarts)")].
+Proof. reflexivity. Qed.
+
+(* mtbl/block.c: block_iter_seek_to_first *)
+Lemma tie_blk_block_iter_seek_to_first : TIE_blk_block_iter_seek_to_first =
+  [(0, "seek_to_restart_point(bi,0)");
+   (0, "parse_next_key(bi)")].
+Proof. reflexivity. Qed.
+
+(* mtbl/block.c: compare_restart_point *)
+Lemma tie_blk_compare_restart_point : TIE_blk_compare_restart_point =
+  [(0, "uint32_tshared,non_shared,value_length");
+   (0, "uint64_tregion_offset=get_restart_point(bi,i)");
+   (0, "constuint8_t*key_ptr=decode_entry(bi->data+region_offset,bi->data+bi->restarts,&shared,&non_shared,&value_length)");
+   (0, "assert(key_ptr!=NULL&&shared==0)");
+   (0, "returnbytes_compare(key_ptr,non_shared,target,target_len)")].
+Proof. reflexivity. Qed.
+
+(* mtbl/block.c: block_iter_next *)
+Lemma tie_blk_block_iter_next : TIE_blk_block_iter_next =
+  [(0, "if(!block_iter_valid(bi))return(false)");
+   (0, "parse_next_key(bi)");
+   (0, "return(block_iter_valid(bi))")].
+Proof. reflexivity. Qed.
+
+(* mtbl/block.c: block_iter_get *)
+Lemma tie_blk_block_iter_get : TIE_blk_block_iter_get =
+  [(0, "if(!block_iter_valid(bi))return(false)");
+   (0, "if(key)");
+   (1, "*key=ubuf_data(bi->key)");
+   (1, "*key_len=ubuf_size(bi->key)");
+   (0, "if(val)");
+   (1, "*val=bi->val");
+   (1, "*val_len=bi->val_len");
+   (0, "return(true)")].
+Proof. reflexivity. Qed.
